@@ -59,7 +59,10 @@ std::uint64_t verif_live_allocs(void) { return live_allocs; }
 std::uint64_t verif_live_bytes(void) { return live_bytes; }
 static std::uint64_t mutex_held;
 std::uint64_t verif_mutex_held(void) { return mutex_held; }
-int pthread_mutex_lock(pthread_mutex_t* m) { static auto real = reinterpret_cast<int (*)(pthread_mutex_t*)>(dlsym(RTLD_NEXT, "pthread_mutex_lock")); int r = real(m); if (r == 0) mutex_held++; return r; }
+static std::uint64_t mutex_foreign;    // harness: every mutex is held by another thread - lock() would wait for ever (the run ends), trylock() reports EBUSY
+void verif_mutex_foreign(std::uint64_t on) { mutex_foreign = on; }
+int pthread_mutex_lock(pthread_mutex_t* m) { static auto real = reinterpret_cast<int (*)(pthread_mutex_t*)>(dlsym(RTLD_NEXT, "pthread_mutex_lock")); if (mutex_foreign) { std::printf("WITNESS\nBLOCKED\n"); std::fflush(stdout); std::_Exit(0); } int r = real(m); if (r == 0) mutex_held++; return r; }
+int pthread_mutex_trylock(pthread_mutex_t* m) { static auto real = reinterpret_cast<int (*)(pthread_mutex_t*)>(dlsym(RTLD_NEXT, "pthread_mutex_trylock")); if (mutex_foreign) return 16; int r = real(m); if (r == 0) mutex_held++; return r; }
 int pthread_mutex_unlock(pthread_mutex_t* m) { static auto real = reinterpret_cast<int (*)(pthread_mutex_t*)>(dlsym(RTLD_NEXT, "pthread_mutex_unlock")); int r = real(m); if (r == 0) mutex_held--; return r; }
 
 int posix_memalign(void** out, size_t al, size_t n) {
